@@ -113,6 +113,8 @@ def run_case(seed, i, tier):
         n0 *= 5
     pol = rng.choice(("starve:0", "starve:0", "starve:2", "random", "rr", "first:2", "pct"))
     second = rng.random() < 0.3
+    windowed = container == "plain" and rng.random() < 0.3
+    wfrac = rng.choice((0.1, 0.5, 0.9))
     cr = CaseResult()
     marks = {}
     planseed = rng.getrandbits(62)
@@ -127,7 +129,17 @@ def run_case(seed, i, tier):
         if second:
             c2, m2, _ = gen_log(core.random.Random(lrng_seed + 2), bsz, "short", 6)
             srcs.append(merge.Source("small.log", "text", m2, c2, c2))
-        opts = ["--color", "never", "--blocksz", str(bsz), "--summary"]
+        opts = ["--color", "never", "--blocksz", str(bsz), "--summary", "--tz-offset", "+00:00"]
+        win_a = None
+        if windowed:
+            # the reader first searches the plain file for the first message at or after A (binary search):
+            # the bound may additionally grow with the logarithm of the size, never linearly
+            win_a = msgs[int(len(msgs) * wfrac)].instant
+            import c03
+            opts += ["-a", c03.fmt_bound(core.random.Random(1), win_a)]
+            srcs = [merge.Source(x.path, x.kind, [m for m in x.msgs if m.instant >= win_a], x.stored, x.plain, x.container, x.descr)
+                    for x in srcs]
+            cr.probes["windowed_plain_file(binary_search_first)"] += 1
         plan = core.Plan(seed=planseed, policy=pol, stick=500 if pol == "random" else 0, pct_depth=2, pct_steps=500,
                          select_pick="random", budget=400 * (len(msgs) + 50) + 40 * n0 * mult + 5000)
         plan.hashseed = hashseed
@@ -152,13 +164,17 @@ def run_case(seed, i, tier):
                 cr.probes["drop_failed_because_coordinator_held_the_message"] += 1
             for key, kind in (("blocks_high", "blocks"), ("syslines_high", "syslines")):
                 b = bound(bsz, maxmsg, kind)
+                if windowed:
+                    b += 4 * max(1, (n0 * mult).bit_length())
                 if key in mk and mk[key] > b and mk[key] > marks.get(1, mk).get(key, 0):
                     vs.append(("mark_over_absolute_bound_" + key,
                                "%s=%d > K=%d (bsz=%d longest message=%d) at %d blocks" % (key, mk[key], b, bsz, maxmsg, n0 * mult)))
         if mult > 1 and 1 in marks and mult in marks:
             for key in ("blocks_high", "lines_high", "syslines_high"):
                 a, b = marks[1].get(key), marks[mult].get(key)
-                if a is not None and b is not None and b > a + SLACK[key]:
+                import math
+                extra = (4 * int(math.ceil(math.log2(max(2, n0 * mult))))) if windowed else 0
+                if a is not None and b is not None and b > a + SLACK[key] + extra:
                     vs.append(("mark_grows_with_size_" + key,
                                "%s: %d at %d blocks -> %d at %d blocks (slack %d); marks=%s" % (
                                    key, a, n0, b, n0 * mult, SLACK[key], {m: marks[m] for m in marks})))
